@@ -36,6 +36,60 @@ def cases(tier, seed):
     return out
 
 
+def mapvisit_runs(res, tier, seed):
+    """map visitor callbacks run under a mask: map_impl::local_visit called from the main program with a sending visitor"""
+    binary, err = C.build_harness("mapmask")
+    if binary is None:
+        res.corr_failures.append({"relation": "mapmask harness builds against /repo", "what": err[-600:], "case": None})
+        return
+    rng = T.Rng(seed * 313 + 5)
+    jobs = []
+    for (N, P) in [(1, 2), (1, 4), (2, 2)]:
+        for routing in T.ROUTINGS:
+            for kb in (0, 0, None):
+                for rep in range(1 if tier == "quick" else 5):
+                    jobs.append((N, P, routing, kb, rng.choice(T.POLICIES), rng.below(1 << 30)))
+
+    def one(j):
+        N, P, routing, kb, pol, ss = j
+        env = {"YGM_COMM_ROUTING": routing}
+        if kb is not None:
+            env["YGM_COMM_BUFFER_SIZE_KB"] = kb
+        return j, C.run_sim(binary, [ss % 1000, 12, 3], nodes=N, ppn=P, env=env, sim_seed=ss, policy=pol, want_log=True, timeout=120)
+
+    for j, sr in C.pmap(one, jobs):
+        N, P, routing, kb, pol, ss = j
+        res.evaluations += 1
+        case = {"harness": "mapmask", "layout": [N, P], "routing": routing, "buf_kb": kb, "policy": pol, "sim_seed": ss}
+        if sr.verdict != "ok":
+            res.oracle_failures.append({"what": f"map-visitor scenario did not complete: {sr.verdict} {sr.stderr[-200:]}", "signature": "mapvisit " + T.verdict_signature(sr), "case": case})
+            continue
+        hev, _ = T.parse(sr.log)
+        invis, mask, visits, bad, unmasked = {}, {}, 0, None, None
+        for ev in hev:
+            r = ev.r
+            if ev.kind == "k:im+":
+                mask[r] = 1
+            elif ev.kind == "k:im-":
+                mask[r] = 0
+            elif ev.kind == "V+":
+                invis[r] = 1
+                visits += 1
+                if not mask.get(r):
+                    unmasked = f"rank {r}: visitor started with no interrupt_mask alive"
+            elif ev.kind == "V-":
+                invis[r] = 0
+            elif ev.kind == "k:ex+" and invis.get(r):
+                bad = f"a handler started on rank {r} while a map visitor callback was running there"
+        if bad:
+            res.oracle_failures.append({"what": bad, "signature": "handler-inside-map-visitor", "case": case})
+        elif unmasked:
+            res.corr_failures.append({"relation": "map_impl::local_visit holds an interrupt_mask around the visitor (local rule of C08)", "what": unmasked, "case": case})
+        elif visits:
+            res.distinct.add(("mapvisit", N, P, routing, kb, pol))
+            res.count("mapvisit_visits", visits)
+
+
 def extra(local, sc, cfg, sr, hev, wire, out):
     from props import acceptors
     acceptors.atomic(local, sc, cfg, hev, wire)
@@ -51,11 +105,30 @@ def run(tier, seed, model_ok=True):
         res.corr_failures.append({"relation": "harness builds against /repo", "what": err[-800:], "case": None})
         return res
     K.run_cases(res, binary, cases(tier, seed), WANT, extra=extra if model_ok else None)
-    if res.oracle_failures:
+    mapvisit_runs(res, tier, seed)
+    if res.oracle_failures and "scenario" in (res.oracle_failures[0].get("case") or {}):
         res.oracle_failures[0] = K.shrink(binary, res.oracle_failures[0], WANT)
     return res
 
 
 def replay(data):
+    case = data.get("case") or {}
+    if case.get("harness") == "mapmask":
+        binary, err = C.build_harness("mapmask")
+        env = {"YGM_COMM_ROUTING": case["routing"]}
+        if case["buf_kb"] is not None:
+            env["YGM_COMM_BUFFER_SIZE_KB"] = case["buf_kb"]
+        sr = C.run_sim(binary, [case["sim_seed"] % 1000, 12, 3], nodes=case["layout"][0], ppn=case["layout"][1], env=env, sim_seed=case["sim_seed"], policy=case["policy"], want_log=True)
+        hev, _ = T.parse(sr.log)
+        invis, hit = {}, False
+        for ev in hev:
+            if ev.kind == "V+":
+                invis[ev.r] = 1
+            elif ev.kind == "V-":
+                invis[ev.r] = 0
+            elif ev.kind == "k:ex+" and invis.get(ev.r):
+                hit = True
+        print("verdict", sr.verdict, "handler inside visitor:", hit)
+        return sr.verdict == "ok" and not hit
     binary, err = C.build_harness("traffic")
     return K.replay_case(binary, data, WANT, extra)
